@@ -251,4 +251,50 @@ def pwlSpecTerms (m : Nat) (cyc : Bool) (x : List Rat) : List Rat :=
 def pwlSpec (m : Nat) (l1 l2 : Rat) (cyc : Bool) (cols : List (List Rat)) : Rat :=
   l1 * sumAbs (cols.flatMap (pwlSpecTerms m cyc)) + l2 * sumSq (cols.flatMap (pwlSpecTerms m cyc))
 
+/-! ## PWL regularizers on the `(rows, units)` kernel the way the code handles it: a list of ROWS
+
+The three `__call__`s slice ROWS (`x[1:]`, `heights[0:1]`, `heights[1:] - heights[:-1]`), append the row
+`-tf.reduce_sum(heights, axis=0, keepdims=True)` (one wrap-around height PER COLUMN) when cyclic, and
+`reduce_sum` over all entries.  `pwlReg` above works column by column; `Lemmas/RegRows.lean` proves both
+readings equal for every rectangular kernel (`pwl_*_rows_eq_columns` in `Props/C13Exact.lean`), and the driver evaluates both. -/
+
+/-- `r - s` of two rows -/
+def rowSub (r s : List Rat) : List Rat := List.zipWith (fun a b => a - b) r s
+/-- `tf.reduce_sum(m, axis=0, keepdims=True)` of a matrix with `units` columns: entry `u` is the sum over
+the rows of their entry `u` -/
+def colSums (units : Nat) (m : List (List Rat)) : List Rat :=
+  (List.range units).map (fun u => rsum (m.map (fun r => getR r u)))
+/-- `m[1:] - m[:-1]` -/
+def rowDiffs (m : List (List Rat)) : List (List Rat) := List.zipWith rowSub (m.drop 1) m.dropLast
+/-- the wrap-around row `-tf.reduce_sum(heights, axis=0, keepdims=True)` -/
+def wrapRow (units : Nat) (h : List (List Rat)) : List Rat := (colSums units h).map (fun a => -a)
+
+/-- `heights` of `LaplacianRegularizer.__call__` -/
+def lapRows (cyc : Bool) (units : Nat) (x : List (List Rat)) : List (List Rat) :=
+  let h := x.drop 1
+  if cyc then h ++ [wrapRow units h] else h
+/-- `nonlinearity` of `HessianRegularizer.__call__` (`x[2:] - x[1:-1]` is `rowDiffs (x[1:])`) -/
+def hessRows (cyc : Bool) (units : Nat) (x : List (List Rat)) : List (List Rat) :=
+  let h := x.drop 1
+  if cyc then rowDiffs (h ++ [wrapRow units h] ++ h.take 1) else rowDiffs h
+/-- `wrinkleness` of `WrinkleRegularizer.__call__` (`[]` = the early `return 0` for `x.shape[0] < 3`) -/
+def wrinkleRows (cyc : Bool) (units : Nat) (x : List (List Rat)) : List (List Rat) :=
+  if x.length < 3 then []
+  else
+    let h := x.drop 1
+    let nonlin := if cyc then rowDiffs (h ++ [wrapRow units h] ++ h.take 1 ++ (h.drop 1).take 1) else rowDiffs h
+    rowDiffs nonlin
+/-- the `losses` logic on a term MATRIX: `reduce_sum` over all its entries -/
+def pwlRegRows (l1 l2 : Rat) (t : List (List Rat)) : Rat :=
+  if l1 == 0 && l2 == 0 then 0 else combine l1 l2 t.flatten
+def pwlLaplacianRows (l1 l2 : Rat) (cyc : Bool) (units : Nat) (x : List (List Rat)) : Rat :=
+  pwlRegRows l1 l2 (lapRows cyc units x)
+def pwlHessianRows (l1 l2 : Rat) (cyc : Bool) (units : Nat) (x : List (List Rat)) : Rat :=
+  pwlRegRows l1 l2 (hessRows cyc units x)
+def pwlWrinkleRows (l1 l2 : Rat) (cyc : Bool) (units : Nat) (x : List (List Rat)) : Rat :=
+  pwlRegRows l1 l2 (wrinkleRows cyc units x)
+/-- column `u` of a matrix given by its rows, and all `units` columns -/
+def column (u : Nat) (m : List (List Rat)) : List Rat := m.map (fun r => getR r u)
+def columns (units : Nat) (m : List (List Rat)) : List (List Rat) := (List.range units).map (fun u => column u m)
+
 end Tfl.Reg
